@@ -32,10 +32,14 @@ def gen(rng, tier):
             x = bytearray(nb)
             x[b // 8] = 0x80 >> (b % 8)
             pats.append(bytes(x))
+        # entropy that happens to look like text (hex digits, 0x…, decimal, base64, words, blanks): still exactly these bits
+        from vlib import magic
+        tl = magic.text_like(rng, nb)
+        pats += [b for b, _ in (tl if tier == "thorough" or L in (12, 24) else rng.sample(tl, 5))]
         for ent in pats:
             cases.append(Case("mn.random %d %s" % (L, hx(ent)), tags=("lib", "pattern")))
             cases.append(Case("mn.parse " + hx(" ".join(bip39.from_entropy(ent))), tags=("parse-back",)))
-        for ent in pats[:6]:
+        for ent in pats[:6] + pats[-3:]:
             cases.append(Case("cli.new %s %s" % (hx(str(L)), hx(ent)), tags=("cli", "pattern"), runner="cli", meta={"log": True}))
         # short read: fewer bytes available than requested -> failure
         cases.append(Case("mn.random %d %s" % (L, hx(bytes(nb - 1))), tags=("lib", "short-read")))
